@@ -40,6 +40,8 @@ REGEXES = [
     # on the whole string: word boundaries, look-behind and ^ see the full input)
     (r'\b[A-Z]{2,}\b', r'{\g<0>}'), (r'(?<=[0-9])-(?=[0-9])', r'--'), (r'^\*', r'\\textbullet{}'),
     (r'\Bb', r'B'), (r'(?<![a-z])a', r'\\A'),
+    # the same patterns as above with other replacements: within one rule the first pair in the list wins
+    (r'ab+', r'\\ALT'), (r'\.\.\.', r'\\dots'), (r'(a)(b)?', r'[\1]'), (r'-->', r'=>'),
 ]
 WORDS = ['ab', 'X', 'α→', '$', 'é', '--', 'a']
 DICT_CHARS = ['a', 'b', 'é', 'α', '$', ' ', '→', '\\', '{', 'ß', '\u0301']
